@@ -73,6 +73,12 @@ func verifThreadEnded(obj interface{}) bool {
 // would succeed (a pending signal or a closed channel) without consuming it.
 // It must only be called while no other goroutine uses the channel.
 func verifSignalReady(signal chan struct{}) bool {
+	// a pending signal
+	if len(signal) > 0 {
+		return true
+	}
+
+	// a closed channel (nothing is consumed as the channel is empty)
 	select {
 	case _, ok := <-signal:
 		if ok {
